@@ -107,6 +107,9 @@ class ConvertStreamToSnaxStreamPattern(RewritePattern):
                     applied_stride = stride * bound
                     applied_bound = spat_size // bound
                     next_stride, next_bound = next(access_iter)
+                    if next_bound % applied_bound != 0:
+                        # the streamer would take applied_bound iterations of the next dimension per step
+                        raise RuntimeError("Access pattern dimensions cannot be merged for this streamer configuration")
                     if applied_stride != next_stride:
                         # next stride of 0 is allowed in case of broadcasting, but then the
                         # next stride should be forced to 0
